@@ -621,6 +621,12 @@ pub fn payload(n: usize, t: usize, e: usize) -> Vec<u8> {
         data.extend(std::iter::repeat_n(b'\n', t));
         return data;
     }
+    // E = 7780: bytes 0x80..0xFE, which are not valid UTF-8 in any arrangement
+    if e == 7780 {
+        let mut data: Vec<u8> = (0..n).map(|i| 0x80 + (i % 0x7F) as u8).collect();
+        data.extend(std::iter::repeat_n(b'\n', t));
+        return data;
+    }
     let mut data: Vec<u8> = (0..n)
         .map(|i| if e > 0 && i % e == e - 1 { b'\n' } else { pattern_byte(i) })
         .collect();
